@@ -523,4 +523,221 @@ Proof.
   apply (cp_sol_unique rank l' st st' W'); [apply (cp_sol_perm l l' st P S)|exact S'].
 Qed.
 
+(** ** set_defaults and get_constants *)
+Lemma cp_set_ext k v st st' : (forall j, st j = st' j) -> forall j, cp_set k v st j = cp_set k v st' j.
+Proof.
+  intros H j. unfold cp_set. rewrite (H kmax), (H kmin).
+  destruct (k =? kmin); [destruct (st' kmax); unfold cp_upd; cbn; rewrite (H j); reflexivity|].
+  destruct (k =? kmax); [destruct (st' kmin); unfold cp_upd; cbn; rewrite (H j); reflexivity|].
+  unfold cp_upd. rewrite (H j). reflexivity.
+Qed.
+
+Lemma cp_defaults_ext d : forall st st', (forall j, st j = st' j) -> forall j, cp_defaults d st j = cp_defaults d st' j.
+Proof.
+  induction d as [|[k v] r IH]; intros st st' H j; cbn [cp_defaults]; [apply H|].
+  apply IH. intros i. rewrite (H k). destruct (st' k); [apply H|apply cp_set_ext; exact H].
+Qed.
+
+Theorem cp_get_constants_order_independent rank d l l' :
+  cp_wfb rank l = true -> Permutation l l' ->
+  exists s s', cp_get_constants d l = Some s /\ cp_get_constants d l' = Some s' /\ forall k, s k = s' k.
+Proof.
+  intros Hb P. destruct (cp_parse_order_independent rank l l' Hb P) as [st [st' [E [E' H]]]].
+  unfold cp_get_constants. rewrite E, E'. eexists. eexists. split; [reflexivity|]. split; [reflexivity|].
+  apply cp_defaults_ext. exact H.
+Qed.
+
+(** ** the printer (Constants.__str__): every public attribute as a literal, in the order of dir() *)
+Fixpoint cp_print (pub : list nat) (st : cp_store) : option (list cp_entry) :=
+  match pub with
+  | [] => Some []
+  | k :: r => match st k, cp_print r st with
+              | Some v, Some l => Some ((k, CNum v) :: l)
+              | _, _ => None                     (* "None" is not JSON *)
+              end
+  end.
+
+(** a file of literals is read in one pass *)
+Fixpoint cp_sets (todo : list (nat * V)) (st : cp_store) : cp_store :=
+  match todo with [] => st | (k, v) :: r => cp_sets r (cp_set k v st) end.
+
+Definition cp_lit (kv : nat * V) : cp_entry := (fst kv, CNum (snd kv)).
+
+Lemma cp_pass_literals todo : forall st unm, cp_pass (map cp_lit todo) st unm = PassOk (cp_sets todo st) unm.
+Proof. induction todo as [|[k v] r IH]; intros st unm; cbn [map cp_lit fst snd cp_pass cp_sets]; [reflexivity|apply IH]. Qed.
+
+Lemma cp_loop_literals f todo n st : 0 < n ->
+  cp_loop (S (S f)) (map cp_lit todo) n st = CPOk (cp_sets todo st).
+Proof.
+  intros Hn. destruct todo as [|x r]; [reflexivity|].
+  change (cp_loop (S (S f)) (map cp_lit (x :: r)) n st)
+    with (match cp_pass (map cp_lit (x :: r)) st [] with
+          | PassOk st' unm => if length unm <? n then cp_loop (S f) unm (length unm) st' else CPNoProgress
+          | PassAlone => CPAlone
+          end).
+  rewrite cp_pass_literals. cbn [length]. rewrite (proj2 (Nat.ltb_lt 0 n) Hn). reflexivity.
+Qed.
+
+Lemma cp_parse_literals (kvs : list (nat * V)) :
+  cp_parse (map cp_lit kvs) = CPOk (cp_sets (rev kvs) (fun _ => None)).
+Proof.
+  unfold cp_parse. rewrite <- map_rev, map_length. destruct kvs as [|x r]; [reflexivity|].
+  cbn [length]. apply cp_loop_literals. lia.
+Qed.
+
+Lemma cp_sets_get todo : forall st k v, NoDup (map fst todo) -> k <> krp -> In (k, v) todo ->
+  cp_sets todo st k = Some v.
+Proof.
+  induction todo as [|[k0 v0] r IH]; intros st k v N Hk Hin; [destruct Hin|].
+  cbn [map fst] in N. inversion N as [|? ? Nk Nr]; subst. cbn [cp_sets].
+  destruct Hin as [E|Hin].
+  - inversion E; subst. clear E IH. revert st. 
+    assert (H : forall st, st k = Some v -> cp_sets r st k = Some v).
+    { clear Nr N. revert Nk. induction r as [|[k1 v1] r IHr]; intros Nk st Hs; cbn [cp_sets]; [exact Hs|].
+      cbn [map fst] in Nk. apply IHr.
+      - intros Hin. apply Nk. right. exact Hin.
+      - rewrite cp_set_other; [exact Hs| |exact Hk]. intros ->. apply Nk. left. reflexivity. }
+    intros st. apply H. apply cp_set_self. exact Hk.
+  - apply IH; assumption.
+Qed.
+
+Lemma cp_sets_none todo : forall st k, k <> krp -> ~ In k (map fst todo) -> cp_sets todo st k = st k.
+Proof.
+  induction todo as [|[k0 v0] r IH]; intros st k Hk Hout; cbn [cp_sets]; [reflexivity|].
+  rewrite IH; [|exact Hk|intros H; apply Hout; right; exact H].
+  apply cp_set_other; [|exact Hk]. intros ->. apply Hout. left. reflexivity.
+Qed.
+
+Lemma cp_print_spec pub : forall st l, cp_print pub st = Some l ->
+  exists kvs, l = map cp_lit kvs /\ map fst kvs = pub /\ forall k v, In (k, v) kvs -> st k = Some v.
+Proof.
+  induction pub as [|k r IH]; intros st l H; cbn [cp_print] in H.
+  - inversion H. exists []. repeat split. intros k v [].
+  - destruct (st k) as [v|] eqn:Ek; [|discriminate]. destruct (cp_print r st) as [l0|] eqn:Er; [|discriminate].
+    inversion H; subst l. destruct (IH st l0 Er) as [kvs [E1 [E2 E3]]].
+    exists ((k, v) :: kvs). cbn [map cp_lit fst snd]. rewrite E1, E2. repeat split.
+    intros k' v' [E|Hin]; [inversion E; subst; exact Ek|apply E3; exact Hin].
+Qed.
+
+(** [print_parse_roundtrip]: every public attribute other than rp that is printed comes back equal, and
+    nothing else is set (before the defaults) *)
+Theorem cp_print_parse_roundtrip pub st l :
+  NoDup pub -> cp_print pub st = Some l ->
+  exists st', cp_parse l = CPOk st' /\
+    (forall k, In k pub -> k <> krp -> st' k = st k) /\
+    (forall k, ~ In k pub -> k <> krp -> st' k = None).
+Proof.
+  intros N H. destruct (cp_print_spec pub st l H) as [kvs [-> [Ek Ev]]].
+  rewrite cp_parse_literals. eexists. split; [reflexivity|].
+  assert (Nr : NoDup (map fst (rev kvs))) by (rewrite map_rev, Ek; apply NoDup_rev; exact N).
+  split.
+  - intros k Hin Hk. rewrite <- Ek in Hin. apply in_map_iff in Hin. destruct Hin as [[k' v] [E Hin]].
+    cbn in E. subst k'. rewrite (Ev k v Hin). apply cp_sets_get; [exact Nr|exact Hk|apply in_rev in Hin; exact Hin].
+  - intros k Hout Hk. rewrite cp_sets_none; [reflexivity|exact Hk|].
+    rewrite map_rev, Ek. intros Hin. apply Hout. apply in_rev. exact Hin.
+Qed.
+
+(** rp comes back too when it is the midpoint the setters compute (i.e. was not customised), in any order *)
+Lemma cp_sets_rp a b r todo : forall st,
+  (forall v, In (kmin, v) todo -> v = a) -> (forall v, In (kmax, v) todo -> v = b) ->
+  (forall v, In (krp, v) todo -> v = r) -> mid a b = r ->
+  (st kmin = None \/ st kmin = Some a) -> (st kmax = None \/ st kmax = Some b) ->
+  (st krp = None \/ st krp = Some r) -> (In krp (map fst todo) \/ st krp = Some r) ->
+  cp_sets todo st krp = Some r.
+Proof.
+  induction todo as [|[k v] rest IH]; intros st Ha Hb Hr Hm Sa Sb Sr Hin; cbn [cp_sets].
+  - destruct Hin as [[]|H]. exact H.
+  - assert (N1 : krp <> kmin) by congruence. assert (N2 : krp <> kmax) by congruence.
+    assert (N3 : kmax <> kmin) by congruence.
+    apply IH; try (intros w Hw; first [apply Ha|apply Hb|apply Hr]; right; exact Hw); try exact Hm.
+    + destruct (Nat.eq_dec k kmin) as [->|NE].
+      * right. rewrite (Ha v (or_introl eq_refl)). apply cp_set_self. exact Hmin_rp.
+      * destruct (Nat.eq_dec k krp) as [->|NE2].
+        -- unfold cp_set, cp_upd. rewrite (proj2 (Nat.eqb_neq _ _) N1), (proj2 (Nat.eqb_neq _ _) N2).
+           rewrite (proj2 (Nat.eqb_neq _ _) Hmin_rp). exact Sa.
+        -- rewrite cp_set_other; [exact Sa|congruence|exact Hmin_rp].
+    + destruct (Nat.eq_dec k kmax) as [->|NE].
+      * right. rewrite (Hb v (or_introl eq_refl)). apply cp_set_self. exact Hmax_rp.
+      * destruct (Nat.eq_dec k krp) as [->|NE2].
+        -- unfold cp_set, cp_upd. rewrite (proj2 (Nat.eqb_neq _ _) N1), (proj2 (Nat.eqb_neq _ _) N2).
+           rewrite (proj2 (Nat.eqb_neq _ _) Hmax_rp). exact Sb.
+        -- rewrite cp_set_other; [exact Sb|congruence|exact Hmax_rp].
+    + unfold cp_set, cp_upd.
+      destruct (Nat.eqb_spec k kmin) as [->|NE1]; [|destruct (Nat.eqb_spec k kmax) as [->|NE2]].
+      * rewrite (Ha v (or_introl eq_refl)). destruct Sb as [Eb|Eb]; rewrite Eb.
+        -- rewrite (proj2 (Nat.eqb_neq _ _) N1). exact Sr.
+        -- rewrite Nat.eqb_refl, Hm. right. reflexivity.
+      * rewrite (Hb v (or_introl eq_refl)). destruct Sa as [Ea|Ea]; rewrite Ea.
+        -- rewrite (proj2 (Nat.eqb_neq _ _) N2). exact Sr.
+        -- rewrite Nat.eqb_refl, Hm. right. reflexivity.
+      * destruct (Nat.eqb_spec krp k) as [E|NE3]; [|exact Sr].
+        right. subst k. rewrite (Hr v (or_introl eq_refl)). reflexivity.
+    + destruct (Nat.eq_dec k krp) as [->|NE].
+      * right. rewrite (Hr v (or_introl eq_refl)).
+        unfold cp_set, cp_upd. rewrite (proj2 (Nat.eqb_neq _ _) N1), (proj2 (Nat.eqb_neq _ _) N2), Nat.eqb_refl. reflexivity.
+      * destruct Hin as [[E|Hin]|Hs]; [cbn in E; congruence|left; exact Hin|right].
+        unfold cp_set, cp_upd.
+        destruct (Nat.eqb_spec k kmin) as [->|NE1]; [|destruct (Nat.eqb_spec k kmax) as [->|NE2]].
+        -- rewrite (Ha v (or_introl eq_refl)). destruct Sb as [Eb|Eb]; rewrite Eb.
+           ++ rewrite (proj2 (Nat.eqb_neq _ _) N1). exact Hs.
+           ++ rewrite Nat.eqb_refl, Hm. reflexivity.
+        -- rewrite (Hb v (or_introl eq_refl)). destruct Sa as [Ea|Ea]; rewrite Ea.
+           ++ rewrite (proj2 (Nat.eqb_neq _ _) N2). exact Hs.
+           ++ rewrite Nat.eqb_refl, Hm. reflexivity.
+        -- rewrite (proj2 (Nat.eqb_neq krp k) ltac:(congruence)). exact Hs.
+Qed.
+
+Theorem cp_print_parse_roundtrip_rp pub st l a b :
+  NoDup pub -> In krp pub -> cp_print pub st = Some l ->
+  st kmin = Some a -> st kmax = Some b -> st krp = Some (mid a b) ->
+  exists st', cp_parse l = CPOk st' /\ st' krp = st krp.
+Proof.
+  intros N Hp H Ea Eb Er. destruct (cp_print_spec pub st l H) as [kvs [-> [Ek Ev]]].
+  rewrite cp_parse_literals. eexists. split; [reflexivity|]. rewrite Er.
+  apply (cp_sets_rp a b (mid a b)); try reflexivity; try (left; reflexivity).
+  - intros v Hv. apply in_rev in Hv. rewrite (Ev _ _ Hv) in Ea. congruence.
+  - intros v Hv. apply in_rev in Hv. rewrite (Ev _ _ Hv) in Eb. congruence.
+  - intros v Hv. apply in_rev in Hv. rewrite (Ev _ _ Hv) in Er. congruence.
+  - left. rewrite map_rev, Ek. apply in_rev. rewrite rev_involutive. exact Hp.
+Qed.
+
 End ConstantsIO.
+
+(** ** examples on V = nat (keys: 0 = rMin, 1 = rMax, 2 = rp; mid a b = (a + b) / 2) *)
+Definition cp_get_nat (d : list (nat * nat)) (l : list (nat * cp_val nat)) : option (list (option nat)) :=
+  match cp_get_constants nat Nat.add Nat.sub Nat.mul Nat.div (fun x => x) (fun a b => (a + b) / 2) 0 1 2 d l with
+  | Some st => Some (map st (seq 0 8))
+  | None => None
+  end.
+
+(** a two-level chain (5 = 4 + 3, 4 = 2 * 3, 3 = 7) is well formed with rank = key, and every order of the
+    entries gives the same constants *)
+Example cp_wf_example :
+  let l := [(5, CExpr nat (EBin nat OAdd (EId nat 4) (EId nat 3))); (3, CNum nat 7);
+            (4, CExpr nat (EBin nat OMul (ELit nat 2) (EId nat 3)))] in
+  cp_wfb nat 2 (fun k => k) l = true /\
+  cp_get_nat [] l = Some [None; None; None; Some 7; Some 14; Some 21; None; None] /\
+  cp_get_nat [] (rev l) = cp_get_nat [] l.
+Proof. vm_compute. repeat split. Qed.
+
+(** the known finding in the model: a customised rp = 3 with rMin = 1, rMax = 9 survives the key order
+    [rp, rMin, rMax] (rp is popped last) and is reset to the midpoint 5 for [rMin, rMax, rp]; printed in the
+    order of dir() (rMax, rMin, rp) it does not come back *)
+Example cp_rp_roundtrip_refuted :
+  cp_get_nat [] [(2, CNum nat 3); (0, CNum nat 1); (1, CNum nat 9)]
+    = Some [Some 1; Some 9; Some 3; None; None; None; None; None] /\
+  cp_get_nat [] [(0, CNum nat 1); (1, CNum nat 9); (2, CNum nat 3)]
+    = Some [Some 1; Some 9; Some 5; None; None; None; None; None] /\
+  (let st := fun k => nth k [Some 1; Some 9; Some 3] None in
+   match cp_print nat [1; 0; 2] st with
+   | Some l => cp_get_nat [] l = Some [Some 1; Some 9; Some 5; None; None; None; None; None]
+   | None => False
+   end).
+Proof. vm_compute. repeat split. Qed.
+
+(** an entry whose dependency is never defined, alone: the inner assertion; a cycle: no progress *)
+Example cp_unresolved_examples :
+  cp_get_nat [] [(3, CExpr nat (EId nat 4))] = None /\
+  cp_parse nat Nat.add Nat.sub Nat.mul Nat.div (fun x => x) (fun a b => (a + b) / 2) 0 1 2
+    [(3, CExpr nat (EId nat 4)); (4, CExpr nat (EId nat 3))] = CPNoProgress nat.
+Proof. vm_compute. split; reflexivity. Qed.
